@@ -70,6 +70,10 @@ class SugarGen:
                     return f
                 if local_ids and rng.random() < 0.4:
                     return rng.choice(local_ids[-3:])
+                if depth >= 1 and rng.random() < 0.06:
+                    # a row attached to `start` in the middle of a block / loop body, after other rows: an entry
+                    # fragment nothing leads to (a shared 'help' message that is only a go_to target, say)
+                    return "start"
                 return ""
 
             if r < 0.45 or depth >= self.max_depth:
@@ -178,7 +182,8 @@ class SugarGen:
             local_ids.append(bid)
 
     def build(self):
-        first = {"row_id": "s0", "type": "send_message", "from": "start", "message_text": "hello"}
+        # the first row: attached to `start`, or (nothing precedes it) with a blank `from` — the flow begins there all the same
+        first = {"row_id": "s0", "type": "send_message", "from": "start" if self.rng.random() < 0.8 else "", "message_text": "hello"}
         self.rows.append(first)
         ids = ["s0"]
         while self.budget > 0:
